@@ -136,6 +136,7 @@ func (s *sink) flush() bool {
 type session struct {
 	handlers map[string]slog.Handler
 	sinks    map[int]*sink
+	dead     bool // a call blocked or a sink got stuck: the rest of the history is answered with "dead" at once
 }
 
 var cur = &session{handlers: map[string]slog.Handler{}, sinks: map[int]*sink{}}
@@ -153,7 +154,7 @@ func callHandle(h slog.Handler, r slog.Record) string {
 	select {
 	case s := <-ch:
 		return s
-	case <-time.After(3 * time.Second):
+	case <-time.After(2 * time.Second):
 		return "ret=blocked"
 	}
 }
@@ -253,6 +254,17 @@ func (logArea) Run(line string) string {
 		return "bad-op"
 	}
 	ss := cur
+	if ss.dead && f[0] != "reset" {
+		return "dead"
+	}
+	out := ss.run(f)
+	if strings.Contains(out, "blocked") || strings.Contains(out, "stuck") {
+		ss.dead = true
+	}
+	return out
+}
+
+func (ss *session) run(f []string) string {
 	switch f[0] {
 	case "reset":
 		// release whatever the previous history left stalled so that its goroutines end
@@ -468,7 +480,7 @@ func (ss *session) logErr(h slog.Handler, level slog.Level, msg string, attrs []
 	var ret string
 	select {
 	case ret = <-done:
-	case <-time.After(3 * time.Second):
+	case <-time.After(2 * time.Second):
 		ret = "ret=blocked"
 	}
 	t1 := time.Now()
